@@ -321,8 +321,49 @@ class Refuse(Harness):
         return out
 
 
+class RefuseZeroRadius(Harness):
+    """single-object patches have radius exactly 0 (d/0 = inf is outside the real-number model): concrete sentinels"""
+
+    functions = (check_patch_conistency, PatchLinkage.from_catalogs)
+    modules = ()
+    xval = False
+
+    def __init__(self):
+        self.name = "refuse.zero_radius"
+        self.bounds = ("2 catalogs x 2 patches with real coordinates; radius of each reference patch in {0, 0.3}, offset of the "
+                       "other catalog's centre in {0, 0.5 rad}, which catalog is the larger one -- every combination chosen by the engine")
+
+    def make_inputs(self, eng):
+        return {"r0": eng.choose(2, "radius0"), "r1": eng.choose(2, "radius1"), "o0": eng.choose(2, "offset0"), "o1": eng.choose(2, "offset1"),
+                "largest": eng.choose(2, "largest")}
+
+    def concrete_inputs(self, m, inp):
+        return dict(inp)
+
+    def body(self, inp):
+        rad = [(0.0, 0.3)[inp["r0"]], (0.0, 0.3)[inp["r1"]]]
+        off = [(0.0, 0.5)[inp["o0"]], (0.0, 0.5)[inp["o1"]]]
+        base = np.array([[1.0, 0.0], [2.0, 0.0]])
+        ref = FakeCat(range(2), AngularCoordinates(base.copy()), AngularDistances(np.array(rad)), (100, 100))
+        oth = FakeCat(range(2), AngularCoordinates(base + np.array([[off[0], 0.0], [off[1], 0.0]])), AngularDistances(np.array([0.3, 0.3])), (10, 10))
+        cats = [ref, oth] if inp["largest"] == 0 else [oth, ref]
+        old = meas.get_max_angle
+        meas.get_max_angle = lambda config, *a, **k: AngularDistances(0.01)
+        try:
+            try:
+                PatchLinkage.from_catalogs(types.SimpleNamespace(), *cats)
+                raised = False
+            except meas.InconsistentPatchesError:
+                raised = True
+        finally:
+            meas.get_max_angle = old
+        far = any(o > max(r, 0.3) for o, r in zip(off, rad))
+        aligned = all(o == 0.0 for o in off)
+        return [Check("misaligned_centres_refused", cond=((not far) or raised)), Check("aligned_centres_accepted", cond=((not aligned) or not raised))]
+
+
 def harnesses(tier):
-    hs = [MetaCompute(3), LoadPatches(3), Refuse(2)]
+    hs = [MetaCompute(3), LoadPatches(3), Refuse(2), RefuseZeroRadius()]
     if tier == "thorough":
         hs += [MetaCompute(5), MetaMeanUsed(), Refuse(3)]
     hs += [MetaCompute(1, wrong="mean"), LoadPatches(2, wrong="shift"), Refuse(2, wrong="always")]
